@@ -70,7 +70,7 @@ def choose_action(rng, w, focus, budget):
     (what C06/C17/C20 leave unspecified) are respected here so that a rejected trace means a real disagreement"""
     O, G, D = w.objs, w.groups, w.dsets
     V = w.osyris.Vector
-    ops = {"dict": ["set", "set", "del", "pop", "get", "clear", "update", "copy", "eq", "eq", "dsset", "dsset", "dssetbad", "dsdel", "dspop", "dsget",
+    ops = {"dict": ["set", "set", "del", "pop", "get", "clear", "update", "copy", "eq", "eq", "dsset", "dsset", "dssetbad", "dsupdatebad", "dsdel", "dspop", "dsget",
                     "dsmeta", "dsclear", "dsupdate", "dscopy", "dsdeepcopy", "deepcopy"],
            "rows": ["set", "set", "set", "del", "pop", "update", "index", "index", "index", "sortkey", "sortkey", "sortidx", "clear", "slice", "copy", "get"],
            "alias": ["set", "set", "copy", "deepcopy", "slice", "slice", "ocopy", "iop", "iop", "iop", "iop", "dsset", "dscopy", "index", "sortidx", "get"]}[focus]
@@ -138,6 +138,8 @@ def choose_action(rng, w, focus, budget):
             return {"op": "dsset", "d": d, "k": rng.choice(KEYS), "g": g}
         if op == "dssetbad":
             return {"op": "dssetbad", "d": d, "k": rng.choice(KEYS), "o": rng.randrange(len(O)) + 1}
+        if op == "dsupdatebad":
+            return {"op": "dsupdatebad", "d": d, "k": rng.choice(KEYS), "o": rng.randrange(len(O)) + 1}
         if op in ("dsdel", "dspop", "dsget"):
             return {"op": op, "d": d, "k": rng.choice(KEYS)}
         if op == "dsmeta":
@@ -183,10 +185,13 @@ def record_traces(n, length, seed, focus):
                 a = choose_action(rng, w, focus, budget)
             except Exception:       # the world is in a state the specification never reaches (already reported by the previous event)
                 break
-            w.apply(a)
             try:
+                w.apply(a)
                 post = view_of(w)
             except Inexact:
+                break
+            except Exception as e:      # a state the projection cannot express: logged as such, the specification will reject it
+                tr.append({"a": a, "post": {"state": {"objs": [], "share": [], "dgs": [], "dss": []}, "res": {"t": "unprojectable", "e": type(e).__name__}}})
                 break
             tr.append({"a": a, "post": post})
         if tr:
